@@ -18,6 +18,13 @@
 //
 // For any other input (malformed, truncated, out of range, lone surrogates,
 // adjacent escapes mixed with text) only the safety clauses are asserted.
+//
+// Besides the enumerations and the three random engines there are workloads for
+// situations a "call, then look at the result" monitor never produces: results
+// kept and re-read after later calls through a reused, overwritten argument
+// arena (reuse.go), inputs beside every power of two up to 256 KiB with escapes
+// across the power-of-two offsets (big.go), and one fresh process per entry
+// point (cold.go).
 package main
 
 import (
@@ -287,7 +294,8 @@ func runTask(c *ev.Case, ts []task, idx int) {
 
 func main() {
 	r := ev.New("C07")
-	r.Rule("random engines: one case = 8 seeded strings (round trip: bytes / UTF-8 / invalid UTF-8 / escape look-alikes given to all four Format functions and back through all Parse forms; hostile: token sequences of good, truncated, wrong-digit, out-of-range, surrogate and wrong-tag escapes, cut, overwritten, given to all four parsers; embedded: canonical escapes between non-empty backslash-free literals with the result known by construction); distinct = hash of the 8 strings; enum engine: one case = one block of an exhaustive enumeration (all code points, all byte pairs, all \\uXXXX values, all \\ddd, all token sequences up to depth 3 cut at every position), independent of the seed; non-trivial = every case (each makes >= 30 golib calls whose results are all judged)")
+	r.Rule("random engines: one case = 8 seeded strings (round trip: bytes / UTF-8 / invalid UTF-8 / escape look-alikes given to all four Format functions and back through all Parse forms; hostile: token sequences of good, truncated, wrong-digit, out-of-range, surrogate and wrong-tag escapes, cut, overwritten, given to all four parsers; embedded: canonical escapes between non-empty backslash-free literals with the result known by construction); distinct = hash of the 8 strings; enum engine: one case = one block of an exhaustive enumeration (all code points, all byte pairs, all \\uXXXX values, all \\ddd, all token sequences up to depth 3 cut at every position), independent of the seed; kept / kept-serial: one case = 4..14 consecutive calls on one goroutine through one argument arena that is overwritten after every call and reused at the same address (next input often = previous with one byte changed, or the same content again), every returned string/slice kept and re-read after every later step; big: one case = one input whose length sits beside a power of two from 16 to 256 KiB (Format of big data and back, or escapes laid across the power-of-two offsets of a long text, intact or damaged); cold-start: one case = one fresh process whose first golib call is one of the 28 entry points; non-trivial = every case (each makes >= 4 golib calls, usually >= 30, whose results are all judged)")
+	r.Assume("a returned string or slice is a value: it must read the same bytes after the caller overwrites its own argument buffer and after any number of further calls; a []byte result belongs to the caller, who may overwrite it without influencing later results (the statement's equalities are between values)")
 	r.Assume("unicode/utf8 of the Go standard library defines valid UTF-8 and the UTF-8 encoding of a code point; the escape grammar and the value of an escape are re-derived in the harness from the property statement")
 	r.Assume("for inputs with a backslash that are neither exactly a Format image nor canonical escapes separated by non-empty backslash-free text, the statement promises safety only (no panic, termination, at most len(input) bytes); nothing else is asserted there")
 	r.Assume("an escape at the very start or end of the input counts as embedded (the empty string is backslash-free text); escapes adjacent to each other are asserted only when the whole input is a Format image")
@@ -322,6 +330,32 @@ func main() {
 		}
 	})
 
+	// kept results, reused argument buffers (parallel, then one uninterrupted sequence at a time)
+	r.Cases("kept", r.N(100000, 2500000), opt, keptCase)
+	serial := opt
+	serial.Serial = true
+	r.Cases("kept-serial", r.N(20000, 300000), serial, keptCase)
+	// lengths on both sides of the powers of two up to 256 KiB, escapes across power-of-two offsets
+	r.Cases("big", r.N(3200, 60000), ev.Opt{HangViolation: true, MaxCaseSeconds: 60}, bigCase)
+	// one fresh process per entry point
+	r.CasesProc("cold-start", coldCases, ev.Opt{Procs: coldCases, AlwaysLog: true, HangViolation: true, MaxCaseSeconds: 60}, coldCase)
+
+	r.Require("kept/sequences", 40000)
+	r.Require("kept/results_re_read_later", 1000000)
+	r.Require("kept/argument_buffer_overwritten_after_call", 100000)
+	r.Require("kept/one-byte-changed_same_call_same_buffer", 20000)
+	r.Require("kept/same-content-again_same_call_same_buffer", 5000)
+	r.Require("kept/returned_slice_overwritten_by_caller", 10000)
+	r.Require("kept/plain_input_through_ParseToString_of_bytes", 3000)
+	r.Require("big/format_data_ge_16KiB", 40)
+	r.Require("big/format_data_ge_64KiB", 8)
+	r.Require("big/parse_input_ge_4KiB", 300)
+	r.Require("big/parse_input_ge_64KiB", 60)
+	r.Require("big/parse_input_ge_256KiB", 15)
+	r.Require("big/escapes_straddling_a_power_of_two_offset", 2000)
+	r.Require("big/escapes_straddling_an_offset_ge_4096", 400)
+	r.Require("big/damaged_parse_cases", 300)
+	r.Require("cold_start_cases", coldCases)
 	for _, cd := range codecs {
 		r.Require(cd.name+"/round_trips", 100000)
 		r.Require(cd.name+"/parse_unspecified", 50000)
